@@ -185,10 +185,14 @@ ForwardIt uninitialized_default_construct_n(
 }
 template <class ForwardIt, class Size>
 ForwardIt uninitialized_default_construct_n(
-    ForwardIt, Size,
+    ForwardIt first, Size n,
     typename std::enable_if<
         std::is_trivially_default_constructible<typename std::iterator_traits<ForwardIt>::value_type>::value>::type * =
-        0) {}
+        0) {
+  // nothing to construct, but the iterator past the last element is returned like std::uninitialized_default_construct_n
+  std::advance(first, n);
+  return first;
+}
 
 template <class ForwardIt>
 void uninitialized_value_construct(
